@@ -429,6 +429,7 @@ fn run_walk(case: &Case, st: &mut Stats) -> Outcome {
 
 fn features(rng: &mut Rng) -> Features {
     let mut f = Features::swarm(rng);
+    f.immediates = rng.chance(1, 4);
     // meta blocks run at compile time, before the recording this engine walks
     f.errors = *rng.pick(&[0, 0, 10, 30]);
     f
@@ -547,6 +548,8 @@ impl Engine for Reverse {
                         f2.vars = false;
                         f2.lets = false;
                         f2.late = false;
+                        // user immediates act on the machine at build time, like meta blocks
+                        f2.immediates = false;
                         f2.errors = 0;
                         let mut g = Gen::new(rng, f2, env_after.clone(), "m");
                         let k = 2 + g.rng.below(10);
